@@ -22,6 +22,24 @@ type Label struct{ Tag, Value, Pointer string }
 var alphabet = []Label{
 	{"NOTE", "a", ""}, {"NOTE", "b", ""}, {"BIRT", "", ""}, {"RESI", "", ""},
 	{"DATE", "1 Jan 1900", ""}, {"DATE", "2 Feb 1901", ""}, {"OCCU", "a", "P1"},
+	{"FAM", "", "F1"}, {"HUSB", "@I1@", ""}, {"CHIL", "@I2@", ""},
+}
+
+// legal: FAM only as root; HUSB/CHIL only directly under a FAM root.
+func (t Tree) legal() bool {
+	for i, l := range t.Levels {
+		switch alphabet[t.Labels[i]].Tag {
+		case "FAM":
+			if l != 0 {
+				return false
+			}
+		case "HUSB", "CHIL":
+			if l != 1 || alphabet[t.Labels[0]].Tag != "FAM" {
+				return false
+			}
+		}
+	}
+	return true
 }
 
 type Tree struct {
@@ -68,7 +86,9 @@ func allTrees(maxN int) []Tree {
 		per := gen.Pow(len(alphabet), n)
 		for si := range shapes {
 			for idx := int64(0); idx < per; idx++ {
-				out = append(out, Tree{Levels: shapes[si], Labels: gen.Digits(idx, len(alphabet), n)})
+				if t := (Tree{Levels: shapes[si], Labels: gen.Digits(idx, len(alphabet), n)}); t.legal() {
+					out = append(out, t)
+				}
 			}
 		}
 	}
